@@ -201,6 +201,16 @@ class JobCtx(FSModel, Ctx):
             # EEXIST / EACCES / ENOENT are errors of open(), i.e. of the fault above (no effect); an error *during* the write is none of them
             ex.assume(z3.And(e != errno.ENOENT, e != errno.EEXIST, e != errno.EACCES, e > 0))
             raise RaiseSignal(SymOSError(e))
+        # the dependency writes through a temp file + os.replace only if write_concern is set or the collection class has its
+        # multithreading support active (class attribute of the REAL class of this tree, read concretely); otherwise it truncates
+        # and rewrites the file in place, and the empty / partial file is a state of its own that others can observe
+        real = o.cls.real
+        atomic = bool(o.fields.get("_write_concern")) or bool(getattr(real, "_threading_support_is_active", False))
+        if not atomic:
+            torn = ex.fresh("truncated", Data)
+            ex.assume(z3.Not(jsonok(torn)))
+            self.effect(interp, "open/truncate SP in place (write is not atomic)", self.fs.with_node(loc, Node.File(torn)))
+            self.interfere(interp)
         self.effect(interp, "write SP", self.fs.with_node(loc, Node.File(d)))
         self.interfere(interp)
         return None
@@ -318,6 +328,7 @@ def _doc_write(self, interp, doc, what):
     ex = interp.ex
     loc = doc.filename
     fs = self.fs
+    self.ghost.setdefault("docwrites", []).append((doc, what))
     ex.assumptions_used.add("synced_collections document write = atomic replace of the document file (write_concern=True), ENOENT if the directory is gone")
     if isinstance(loc, LIn):
         if not ex.decide(fs.dirs[JD.mk(loc.p, loc.i)], "docwrite:dir-exists"):
